@@ -12,6 +12,7 @@ import (
 	"github.com/wrgl/wrgl/pkg/encoding/packfile"
 	"github.com/wrgl/wrgl/pkg/objects"
 	"github.com/wrgl/wrgl/pkg/zzverif"
+	"github.com/wrgl/wrgl/pkg/zzverif/zzingest"
 	"github.com/wrgl/wrgl/pkg/zzverif/zzrepo"
 )
 
@@ -36,10 +37,25 @@ func zzRows(n int, tag string) [][]string {
 	return rows
 }
 
+// zzIngested stores a table through the repository's real ingest pipeline (sorter +
+// inserter), so that what the receiver rebuilds (block indices, table index) is
+// compared with what ingest itself produces.
+func zzIngested(db *zzrepo.ObjStore, rows [][]string) ([]byte, *objects.Table) {
+	sum, err := zzingest.Ingest(db, []string{"a", "b"}, []uint32{0}, rows, 1<<40, 1)
+	if err != nil {
+		panic(err)
+	}
+	tbl, err := objects.GetTable(db, sum)
+	if err != nil {
+		panic(err)
+	}
+	return sum, tbl
+}
+
 func zzBuild(kind int) *zzScenario {
 	sc := &zzScenario{src: zzrepo.NewObjStore()}
 	add := func(rows [][]string, msg string, ts int64, parents ...int) {
-		sum, tbl := zzrepo.SaveTable(sc.src, []string{"a", "b"}, []uint32{0}, rows, 255)
+		sum, tbl := zzIngested(sc.src, rows)
 		var ps [][]byte
 		for _, p := range parents {
 			ps = append(ps, sc.commits[p].Sum)
@@ -61,7 +77,7 @@ func zzBuild(kind int) *zzScenario {
 		add(zzRows(2, "y"), "left", 1600000100, 0)
 		add(zzRows(3, "z"), "right", 1600000100, 0)
 		rows := zzRows(2, "y")
-		sum, tbl := zzrepo.SaveTable(sc.src, []string{"a", "b"}, []uint32{0}, rows, 255)
+		sum, tbl := zzIngested(sc.src, rows)
 		_, c := zzrepo.SaveCommit(sc.src, sum, "merge", 1600000200, sc.commits[1].Sum, sc.commits[2].Sum)
 		sc.commits = append(sc.commits, c)
 		sc.tables = append(sc.tables, sum)
